@@ -69,7 +69,7 @@ ob("O-C05-length", ["C05"], J, "c05_num_length", "Num::length (absolute value) i
    inlang={"inputs": ["isize"], "filter": "$a|length", "expect": "no_panic", "doc": "a = the integer of the counterexample"})
 
 # point obligations: the big-integer arms at concrete boundary values
-ob("O-C08-big", ["C08"], J, "c08_big_points", "points: a big integer against +/-infinity and a small float in both argument orders; 5 as Int / BigInt / Float and 0 as Int / BigInt mutually equal, ordered Equal and hashing alike; big integers beyond the machine range ordered among themselves and against isize::MAX / MIN", [NUM + "Num::cmp", NUM + "Num::eq", NUM + "Num::hash"], label="point", kind="point", composes_dependency=True)
+ob("O-C08-big", ["C08", "C09"], J, "c08_big_points", "points: a big integer against +/-infinity and a small float in both argument orders; 5 as Int / BigInt / Float and 0 as Int / BigInt mutually equal, ordered Equal and hashing alike; big integers beyond the machine range ordered among themselves and against isize::MAX / MIN", [NUM + "Num::cmp", NUM + "Num::eq", NUM + "Num::hash"], label="point", kind="point", composes_dependency=True)
 ob("O-C08-big-big", ["C08"], J, "c08_big_cmp_big", "two big integers of any value up to 128 bits: cmp is the mathematical order and == is equality of values (integers beyond 2^53 compared among integers)", [NUM + "Num::cmp", NUM + "Num::eq"], composes_dependency=True, tier="thorough", timeout=3000)
 ob("O-C08-big-inf", ["C08"], J, "c08_big_cmp_inf", "a big integer of any value up to 128 bits against +/-Infinity, in both argument orders: -Infinity < every integer < Infinity, never equal", [NUM + "Num::cmp", NUM + "Num::eq"], composes_dependency=True, tier="thorough", timeout=3000)
 ob("O-C09-big-obs", ["C09", "C10"], J, "c09_big_observers", "for every big integer up to 128 bits: is_int; as_isize is Some(value) iff it fits a machine integer; as_pos_usize is (value >= 0, |value|) with zero non-negative, None beyond usize; a big integer that fits agrees with the machine integer of the same value (equal integers behave identically however stored)", [NUM + "Num::is_int", NUM + "Num::as_isize", NUM + "Num::as_pos_usize"], composes_dependency=True)
@@ -84,7 +84,7 @@ for i, h in enumerate("0123456789abcdef"):
     ob(f"O-C07-byte-{h}", ["C07"], J, f"c07_write_byte_{h}", f"write_byte! (with the fall-backs of write_utf8! / write_bytes!) writes each byte 0x{h}0..=0x{h}f inside a JSON string exactly as RFC 8259 section 7 prescribes (two-character escapes, \\u00XX for other control characters, the character itself otherwise; byte strings: \\xXX outside printable ASCII)", ["jaq-json/src/write.rs::write_byte!", "jaq-json/src/write.rs::write_utf8! (fall-back expression)", "jaq-json/src/write.rs::write_bytes! (fall-back expression)"], label="complete", kind="lemma", bound="", tier="quick" if quick else "thorough", timeout=900)
 
 for c, quick in (("00", False), ("1f", True), ("20", True), ("22", True), ("5c", False), ("7e", False), ("7f", True), ("80", False)):
-    ob(f"O-C07-utf8-{c}", ["C07"], J, f"c07_write_utf8_{c}", f"the whole write_utf8! macro (is_special predicate, splitting, write_byte!) on the one-byte text string [0x{c}]: quote, the escape RFC 8259 requires for that byte or the byte itself, quote", ["jaq-json/src/write.rs::write_utf8!", "jaq-json/src/write.rs::write_byte!"], label="point", kind="point", tier="quick" if quick else "thorough", timeout=900)
+    ob(f"O-C07-utf8-{c}", ["C07", "C13"], J, f"c07_write_utf8_{c}", f"the whole write_utf8! macro (is_special predicate, splitting, write_byte!) on the one-byte text string [0x{c}]: quote, the escape RFC 8259 requires for that byte or the byte itself, quote", ["jaq-json/src/write.rs::write_utf8!", "jaq-json/src/write.rs::write_byte!"], label="point", kind="point", tier="quick" if quick else "thorough", timeout=900)
 
 # ------------------------------------------------------------------------------------ jaq-std (trait-contract instances, AnyVal)
 STD = "jaq-std/src/lib.rs::"
